@@ -131,6 +131,7 @@ class Scanner:
         self.ptr_alias = {}        # local pointer decl -> (array text, offset): T* p = &a[e]
         self.ref_alias = {}        # local reference decl -> (base, idx, path): T& r = a[e] / obj.field
         self.track_all = False     # follow multiply-written scalar locals everywhere (always done inside inlined helpers)
+        self.struct_vals = {}      # (local struct decl, field) -> value last stored to it on the straight line (for whole-struct fills)
         self.iter_alias = {}       # iterator local walking a container in a counted loop -> (base, idx tuple): *it is base[idx]
         self.cur = {}              # scalar local written more than once -> (current value | None, guard depth, loop depth at its declaration)
         self.inline_value = {}     # call node id -> value of an inlined helper call
@@ -473,7 +474,68 @@ class Scanner:
         args = [self._try(a) for a in x.get("args", [])]
         self.calls.append(Call(x.get("callee"), x, args, x.get("args", []), A.call_object(x), x["line"], g, l,
                                x.get("callee_sig")))
+        if x.get("callee") in ("std::copy_n", "std::fill_n") and len(x.get("args", [])) == 3:
+            self._elements_of_bulk(x)
         self._inline(x)
+
+    def _array_of(self, node):
+        """pointer-valued argument -> (array name, offset) when it points into a named array: a, &a[e], a+e, a.data()+e"""
+        pa = self._pointer_into(node)
+        if pa is not None:
+            return pa
+        n = A.strip(node)
+        d = A.declref(n)
+        if d is not None:
+            if d.get("decl") in self.ptr_alias:
+                return self.ptr_alias[d["decl"]]
+            loc = self.locals.get(d.get("decl"))
+            if loc is not None and ("[" in (loc.get("ctype") or loc.get("type") or "") or _is_ptr(loc.get("ctype") or loc.get("type"))):
+                return d["name"], sp.Integer(0)             # a local array / a pointer local used as the array it points to
+        f = A.this_field(n)
+        if f is not None and _is_ptr(n.get("ctype")):
+            return f, sp.Integer(0)
+        if n.get("k") == "CXXMemberCallExpr" and (n.get("callee") or "").split("::")[-1] == "data" and "std::" in (n.get("callee") or "") and A.call_object(n) is not None:
+            o_ = A.strip(A.call_object(n))
+            nm_ = A.this_field(o_) or (A.declref(o_) or {}).get("name")
+            if nm_:
+                return nm_, sp.Integer(0)
+        return None
+
+    def _elements_of_bulk(self, x):
+        """std::copy_n(src, n, dst) / std::fill_n(dst, n, v) on named arrays, seen also as the element accesses they perform
+        (dst[o+j] = src[p+j] / dst[o+j] = v for j in [0, n)): rules that read element stores then cover the algorithm spelling too"""
+        a = x["args"]
+        cal = x["callee"]
+        dst = self._array_of(a[2] if cal == "std::copy_n" else a[0])
+        n = self._try(a[1])
+        if dst is None or n is None:
+            return
+        jsym = sp.Symbol("j_%d" % x["id"], integer=True)
+        L = Loop("j_%d" % x["id"], None, jsym, sp.Integer(0), n, "<", 1, x)
+        g, l = self._ctx()
+        l = l + [L]
+        if cal == "std::copy_n":
+            src = self._array_of(a[0])
+            if src is None:
+                return
+            ld = Access("load", src[0], (sp.expand(src[1] + jsym),), "", x, x["line"], g, l)
+            st = Access("store", dst[0], (sp.expand(dst[1] + jsym),), "", x, x["line"], g, l, "=", sp.Indexed(sp.IndexedBase(src[0]), sp.expand(src[1] + jsym)), a[0], x)
+            ld.from_bulk = st.from_bulk = x
+            self.accesses.extend([ld, st])
+            return
+        v = A.strip(a[2])
+        vd = A.declref(v)
+        ty = (v.get("ctype") or "").replace("const ", "").strip()
+        if vd is not None and ty in self.agg_fields and all((vd["decl"], f_) in self.struct_vals for f_ in self.agg_fields[ty]):
+            for f_ in self.agg_fields[ty]:
+                st = Access("store", dst[0], (sp.expand(dst[1] + jsym),), "." + f_, x, x["line"], g, l, "=", self.struct_vals[(vd["decl"], f_)], a[2], x)
+                st.from_bulk = x
+                self.accesses.append(st)
+            return
+        val = self._try(a[2])
+        st = Access("store", dst[0], (sp.expand(dst[1] + jsym),), "", x, x["line"], g, l, "=", val, a[2], x)
+        st.from_bulk = x
+        self.accesses.append(st)
 
     # -- looking into helper functions and lambdas ----------------------------
     def _inline_target(self, x):
@@ -582,6 +644,11 @@ class Scanner:
             self.accesses.append(Access("store", base, idx, path, n, n["line"], g, l, n["op"], val, rhs, lnode))
             self._modf_out(rhs)
             self._track(A.declref(lhs), n["op"], val, idx)
+            ls_ = A.strip(lhs, casts=False)
+            if ls_.get("k") == "MemberExpr" and n["op"] == "=" and ls_.get("c") and not ls_.get("arrow"):
+                od_ = A.declref(ls_["c"][0])
+                if od_ is not None and od_.get("decl") in self.locals and val is not None:
+                    self.struct_vals[(od_["decl"], ls_["member"]["name"])] = val
             # bind single-assignment locals
             dr = A.declref(lhs)
             if dr is not None and n["op"] == "=" and self.assigned.get(dr["decl"], 0) == 1 and \
@@ -1334,3 +1401,22 @@ def copies(scan):
             out.append(dict(src=c.args[0], length=sp.expand(c.args[1] - c.args[0]), dst=c.args[2], call=c))
     return out
 
+
+_COMPL = {"==": "!=", "!=": "==", "<": ">=", ">=": "<", ">": "<=", "<=": ">"}
+
+
+def guards_complementary(a, b):
+    """do two (condition, polarity) guards exclude each other and cover all cases?  (c, True) vs (c, False), or two comparisons of
+    the same operands with complementary operators under the same polarity"""
+    (g1, p1), (g2, p2) = a, b
+    if not isinstance(g1, dict) or not isinstance(g2, dict):
+        return False
+    t1, t2 = A.strip(g1), A.strip(g2)
+    s1, s2 = A.show(t1).replace(" ", ""), A.show(t2).replace(" ", "")
+    if s1 == s2:
+        return p1 != p2
+    if t1.get("k") == "BinaryOperator" and t2.get("k") == "BinaryOperator" and len(t1.get("c", [])) == 2 and len(t2.get("c", [])) == 2:
+        same_ops = A.show(t1["c"][0]).replace(" ", "") == A.show(t2["c"][0]).replace(" ", "") and A.show(t1["c"][1]).replace(" ", "") == A.show(t2["c"][1]).replace(" ", "")
+        if same_ops and _COMPL.get(t1.get("op")) == t2.get("op"):
+            return p1 == p2
+    return False
